@@ -161,9 +161,23 @@ func checkC01(sc *Scenario, st *Stats) *Violation {
 	return nil
 }
 
-func genC01(t *rapid.T) *Scenario {
+// genStandard: generated programs (75%) or scripted call trees (25%: deeper
+// nesting, logs, reverting frames, creates) - both use standard opcodes only.
+func genStandard(t *rapid.T) *Scenario {
+	if chance(t, 25, "stdtree") {
+		sc := GenTreeScenario(t, TreeCfg{MinFork: 4, MaxFork: 11, MaxInvs: 3, Budget: 12, AllKinds: true, EmptyData: 15, ValuePct: 40, LowGasPct: 20, ReturnBig: true})
+		for i := range sc.Invs {
+			sc.Invs[i].JP = rapid.Bool().Draw(t, "stdjp")
+			if chance(t, 30, "stdgas") {
+				sc.Invs[i].Gas = rapid.Uint64Range(21000, 400000).Draw(t, "stdgasv")
+			}
+		}
+		return sc
+	}
 	return GenProgScenario(t, ProgCfg{Standard: true})
 }
+
+func genC01(t *rapid.T) *Scenario { return genStandard(t) }
 
 func TestC01(t *testing.T)       { runProp(t, "C01", genC01, checkC01) }
 func TestC01Replay(t *testing.T) { replayProp(t, "C01", checkC01) }
